@@ -32,6 +32,16 @@ Proof.
   destruct (rev c ++ []) as [|z zs] eqn:Ec; [exfalso; now apply (R c Nc)|]. rewrite <- Ec, app_nil_r, rev_involutive. reflexivity.
 Qed.
 
+Lemma fields2 a b : a <> [] -> b <> [] -> forallb nosp a = true -> forallb nosp b = true -> fields (a ++ sp :: b) = [a; b].
+Proof.
+  intros Na Nb Ha Hb. unfold fields.
+  assert (R : forall w : str, w <> [] -> rev w ++ [] <> []) by (intros w Hw E; rewrite app_nil_r in E; apply Hw; now rewrite <- (rev_involutive w), E).
+  rewrite (fields_word a [] _ Ha). cbn [fields_aux]. change (is_space sp) with true. cbv iota.
+  destruct (rev a ++ []) as [|x xs] eqn:Ea; [exfalso; now apply (R a Na)|]. rewrite <- Ea, app_nil_r, rev_involutive.
+  rewrite <- (app_nil_r b) at 1. rewrite (fields_word b [] [] Hb). cbn [fields_aux].
+  destruct (rev b ++ []) as [|z zs] eqn:Eb; [exfalso; now apply (R b Nb)|]. rewrite <- Eb, app_nil_r, rev_involutive. reflexivity.
+Qed.
+
 Section Parsed.
   Variable H : alg -> str -> str.                 (* ORACLE: the digests, as in H12 *)
   Variable parse_int : str -> option Z.           (* ORACLE: strconv.ParseInt(x, 10, 64) *)
@@ -55,6 +65,12 @@ Section Parsed.
     forallb nosp h = true -> forallb nosp sz = true -> forallb nosp nm = true -> parse_int sz = Some n ->
     unmarshal_hash algorithm (h ++ sp :: sz ++ sp :: nm) = Some {| f_alg := algorithm; f_hash := h; f_size := n; f_name := nm |}.
   Proof. intros Nh Ns Nn Hh Hs Hn P. unfold unmarshal_hash. rewrite fields3 by assumption. now rewrite P. Qed.
+
+  (* the two-column form "<name> <hash>": the first token is the NAME and the second the hash - whatever the name looks
+     like (a by-hash style name is all hex digits and as long as a digest) *)
+  Theorem C12_parsed_two_columns algorithm nm h : nm <> [] -> h <> [] -> forallb nosp nm = true -> forallb nosp h = true ->
+    unmarshal_hash algorithm (nm ++ sp :: h) = Some {| f_alg := algorithm; f_hash := h; f_size := 0; f_name := nm |}.
+  Proof. intros Nn Nh Hn Hh. unfold unmarshal_hash. now rewrite fields2. Qed.
 
   (* an entry parsed from a field of algorithm A is accepted exactly for streams whose A-digest is the recorded hash *)
   Theorem C12_parsed_verifier algorithm data fh chunks : unmarshal_hash algorithm data = Some fh ->
